@@ -295,6 +295,8 @@ fn apply_strict(hunks: &[Hunk], old: &[u8], new: &[u8], radius: usize) -> Result
 struct Rendered {
     display: String,
     written: Vec<u8>,
+    /// the diff's ops are a valid script of the token slices (consuming ranges only)
+    ops_valid: Result<(), String>,
 }
 
 fn render<T: DiffableStr + ?Sized>(
@@ -311,6 +313,15 @@ fn render<T: DiffableStr + ?Sized>(
         similar::verif::set_swap_repair(repair);
         let diff = TextDiff::configure().algorithm(alg).diff_lines(old, new);
         swaps = similar::verif::take_swaps();
+        let ops_valid = validate_ops(
+            diff.ops(),
+            diff.old_slices(),
+            0..diff.old_slices().len(),
+            diff.new_slices(),
+            0..diff.new_slices().len(),
+            false,
+        )
+        .map(|_| ());
         let mut u = diff.unified_diff();
         u.context_radius(radius);
         if header {
@@ -319,7 +330,7 @@ fn render<T: DiffableStr + ?Sized>(
         let display = u.to_string();
         let mut written = vec![];
         u.to_writer(&mut written).unwrap();
-        Rendered { display, written }
+        Rendered { display, written, ops_valid }
     })
     .map_err(|p| format!("panic: {}", p))?;
     Ok((r, swaps))
@@ -411,6 +422,7 @@ pub fn check_pair(old: &[u8], new: &[u8], radii: &[usize]) -> Verdict {
                             let hr = Rendered {
                                 written: s.as_bytes().to_vec(),
                                 display: s,
+                                ops_valid: Ok(()),
                             };
                             check_rendering(&hr, old, new, radius, header, true)
                                 .map_err(|e| format!("udiff::unified_diff: {}", e))?;
@@ -434,6 +446,19 @@ pub fn check_pair(old: &[u8], new: &[u8], radii: &[usize]) -> Verdict {
                                 if kind == 0 { "str" } else { "[u8]" },
                                 e
                             );
+                            // KF1 only leaves carried indices stale; if the ops themselves are
+                            // not a valid script this is a different defect
+                            let valid = if kind == 0 {
+                                let (a, b) = as_str.unwrap();
+                                render::<str>(alg, a, b, radius, header, false).map(|r| r.0.ops_valid)
+                            } else {
+                                render::<[u8]>(alg, old, new, radius, header, false).map(|r| r.0.ops_valid)
+                            };
+                            match valid {
+                                Ok(Ok(())) => {}
+                                Ok(Err(v)) => return Verdict::Fail(format!("{} [ops are not a valid script: {}]", what, v)),
+                                Err(v) => return Verdict::Fail(format!("{} [{}]", what, v)),
+                            }
                             match run(true) {
                                 Ok((_, swaps)) if swaps > 0 => {
                                     if kf1.is_none() {
